@@ -20,15 +20,17 @@ import scipy.sparse.linalg as sla
 from .common import plist, frac
 
 THEOREMS = [
-    'Pyiga.Props.C16.apply_tprod_spec', 'Pyiga.Props.C16.apply_tprod_shape',
-    'Pyiga.Props.C16.modek_sparse_eq_tensordot',
+    'Pyiga.Props.C16.apply_tprod_spec', 'Pyiga.Props.C16.apply_tprod_shape', 'Pyiga.Props.C16.apply_tprod_kron_vec',
+    'Pyiga.Props.C16.modek_sparse_eq_tensordot', 'Pyiga.Props.C16.kron_dense_spec',
     'Pyiga.Props.C16.kron_mixed_product', 'Pyiga.Props.C16.kron_inverse',
-    'Pyiga.Props.C16.sizes_to_ranges_spec',
+    'Pyiga.Props.C16.sizes_to_ranges_spec', 'Pyiga.Props.C16.block_spec',
     'Pyiga.Props.C16.block_transpose', 'Pyiga.Props.C16.block_transpose_wf',
-    'Pyiga.Props.C16.fastdiag_abstract', 'Pyiga.Props.C16.fastdiag_1d', 'Pyiga.Props.C16.fastdiag_2d',
+    'Pyiga.Props.C16.kron_linops_spec', 'Pyiga.Props.C16.subspace_spec',
+    'Pyiga.Props.C16.csr_row_slice', 'Pyiga.Props.C16.csr_row_slice_mat', 'Pyiga.Props.C16.csr_row_subset',
+    'Pyiga.Props.C16.fastdiag_abstract', 'Pyiga.Props.C16.fastdiag_1d', 'Pyiga.Props.C16.fastdiag_2d', 'Pyiga.Props.C16.fastdiag_3d',
 ]
 MODULES = ['Pyiga.Model.Index', 'Pyiga.Model.LinAlg', 'Pyiga.Model.Operators', 'Pyiga.Proofs.Index',
-           'Pyiga.Proofs.LinAlg', 'Pyiga.Proofs.Tprod', 'Pyiga.Proofs.Operators', 'Pyiga.Proofs.FastDiag', 'Pyiga.Props.C16']
+           'Pyiga.Proofs.LinAlg', 'Pyiga.Proofs.Tprod', 'Pyiga.Proofs.KronDense', 'Pyiga.Proofs.Operators', 'Pyiga.Proofs.Blocks', 'Pyiga.Proofs.CsrSubspace', 'Pyiga.Proofs.Linops', 'Pyiga.Proofs.FastDiag', 'Pyiga.Props.C16']
 
 KINDS = ['d', 'r', 'c', 'l']   # ndarray, csr, csc, LinearOperator
 
@@ -236,8 +238,8 @@ def run(ctx):
         K = kron_all(mats)
         flag = 'N'
         if which == 'kronop':
-            flag = str(rng.choice(['N', 'N', 'T']))
-        D = K.T if flag == 'T' else K
+            flag = str(rng.choice(['N', 'N', 'T', 'H']))
+        D = K.T if flag != 'N' else K
         x = rand_x(rng, D.shape[1])
         bad = rng.integers(0, 30) == 0
         if bad:
@@ -257,7 +259,7 @@ def run(ctx):
         else:
             def f(ops=ops, x=x, flag=flag):
                 Kop = operators.KroneckerOperator(*ops)
-                return (Kop.T if flag == 'T' else Kop).dot(x)
+                return (Kop.T if flag == 'T' else Kop.H if flag == 'H' else Kop).dot(x)
             r = 'kronop %s %s %s' % (flag, fmt_ops(ks, mats), fmt_tensor(x))
         add(r, f, {'op': which + ('-bad' if bad else ''), 'n': n, 'kinds': ks, 'flag': flag, 'nontrivial': n >= 2},
             dense=None if bad else D, x=None if bad else x)
@@ -271,7 +273,7 @@ def run(ctx):
     nbl = 900 if quick else 8000
     for _ in range(nbl):
         which = str(rng.choice(['bdiag', 'block', 'block', 'base']))
-        flag = str(rng.choice(['N', 'N', 'T']))
+        flag = str(rng.choice(['N', 'N', 'T', 'H']))
         if which == 'bdiag':
             n = int(rng.integers(1, 4))
             ks, mats = rand_factors(rng, n, 3)
@@ -325,14 +327,14 @@ def run(ctx):
             r0 = 'base %s %d %d %s %s %s' % (flag, M, N, fmt_ops(ks, mats), plist(ro, lambda t: '%d %d' % t),
                                              plist(ri, lambda t: '%d %d' % t))
         if D is not None:
-            Df = D.T if flag == 'T' else D
+            Df = D.T if flag != 'N' else D
             x = rand_x(rng, Df.shape[1])
         else:
             Df = None
             x = rand_x(rng, sum(ws) if flag == 'N' else sum(hs))
         def f(mkop=mkop, flag=flag, x=x):
             B = mkop()
-            return (B.T if flag == 'T' else B).dot(x)
+            return (B.T if flag == 'T' else B.H if flag == 'H' else B).dot(x)
         add('%s %s' % (r0, fmt_tensor(x)), f, {'op': which, 'flag': flag}, dense=Df, x=x if Df is not None else None)
 
     # ---------------------------------------------------------------- diagonal / identity / null
@@ -361,12 +363,12 @@ def run(ctx):
             nj = int(rng.integers(1, 4))
             Ps.append(rint(rng, (n, nj), -2, 3)); Bs.append(rint(rng, (nj, nj)))
             pk.append(str(rng.choice(['d', 'r', 'c']))); bk.append(str(rng.choice(KINDS)))
-        flag = str(rng.choice(['N', 'T']))
-        D = sum(P @ (B.T if flag == 'T' else B) @ P.T for P, B in zip(Ps, Bs))
+        flag = str(rng.choice(['N', 'T', 'H']))
+        D = sum(P @ (B.T if flag != 'N' else B) @ P.T for P, B in zip(Ps, Bs))
         x = rand_x(rng, n)
         def f(Ps=Ps, Bs=Bs, pk=pk, bk=bk, flag=flag, x=x):
             S = operators.SubspaceOperator([mk(a, P) for a, P in zip(pk, Ps)], [mk(a, B) for a, B in zip(bk, Bs)])
-            return (S.T if flag == 'T' else S).dot(x)
+            return (S.T if flag == 'T' else S.H if flag == 'H' else S).dot(x)
         add('subsp %s %s %s %s' % (flag, fmt_ops(pk, Ps), fmt_ops(bk, Bs), fmt_tensor(x)), f,
             {'op': 'subspace', 'flag': flag, 'nontrivial': k >= 2}, dense=D, x=x)
 
